@@ -2,6 +2,7 @@ import Driver.C15
 import Driver.Stages
 import Driver.Select
 import Driver.Compile
+import Driver.Resolve
 
 def main (args : List String) : IO UInt32 := do
   match args with
@@ -16,8 +17,12 @@ def main (args : List String) : IO UInt32 := do
     Driver.runJudge (fun j =>
       match Driver.fieldD j "probe" with
       | .str "stages" => Driver.Stages.judge "C14" j
+      | .str "minutxo" => Driver.Resolve.judgeMinUtxo j
+      | .str "resolve" => Driver.Resolve.judgeTotal j
       | _ => Driver.Compile.judge "C14" j)
     return 0
+  | ["C05"] => Driver.runJudge Driver.Resolve.judgeC05; return 0
+  | ["C20"] => Driver.runJudge Driver.Resolve.judgeC20; return 0
   | ["C06"] => Driver.runJudge (Driver.Stages.judge "C06"); return 0
   | ["C07"] => Driver.runJudge (Driver.Stages.judge "C07"); return 0
   | _ => IO.eprintln "usage: driver <property>  (cases on stdin, verdicts on stdout)"; return 2
